@@ -146,6 +146,10 @@ Eval vm_compute in (length cases, length bad, map fst (firstn 3 bad)).
     # ------------------------------------------------ real output files
     cfgs = [cfg()] if quick else [cfg(), cfg("RECTANGLE", "COAXIAL", months=36, loads={"kind": "cooling", "scale": 40000, "seed": 3}),
                                   cfg("BIRECTANGLE", "DOUBLEUTUBEPARALLEL", loads={"kind": "heating", "scale": 25000, "seed": 4})]
+    # the same design with an hourly simulation of the 24-month horizon run on the object before the results are written
+    hb = cfg(months=24, loads={"kind": "balanced", "scale": 20000.0, "seed": 6})
+    hb["_hourly_before_write"] = True
+    cfgs.append(hb)
     for r in e2e_runs(cfgs):
         if not r.get("ok"):
             chk.broken.append({"name": "end-to-end run failed", "detail": json.dumps({k: r.get(k) for k in ("exc", "msg")})})
